@@ -1,5 +1,279 @@
-(* C28 — Unknown chunk sizes are resolved exactly or refused (placeholder). *)
-From DA Require Import PyBase.
+(* C28 — Unknown chunk sizes are resolved exactly or refused.
+   Statements only; models in theories/UnknownChunks.v, proofs in theories/UnknownChunksFacts.v.
+
+   A chunk size is [option Z] (None = np.nan).  [known_sound adv tr]: the advertised layout
+   [adv] of one axis claims nothing false about the true block sizes [tr] (every advertised
+   size is unknown or the true size of that block).  A guard returns [Refuse e] (the Python
+   raises e) or [Proceed v].  The theorems say, guard by guard, that whenever the code
+   proceeds on an axis whose sizes are unknown it leaves that axis block-for-block untouched
+   (so what is advertised stays sound), and that compute_chunk_sizes / ChunksOverride
+   advertise exactly the true sizes without touching the blocks.  The models are compared
+   exactly with the implementation on every run of harness/c28.py (fam_unknown_model). *)
+From DA Require Import PyBase Slicing Rechunk Unify UnknownChunks UnknownChunksFacts.
 Open Scope Z_scope.
-Example C28_placeholder : zsum [1;2;3] = 6. Proof. reflexivity. Qed.
-Print Assumptions C28_placeholder.
+
+(* ---------------------------------------------------------------------------------- *)
+(* _validate_rechunk accepts iff the ranks agree and, axis by axis, an axis with an unknown
+   size (in old or new) is unchanged, and a fully known axis keeps its length *)
+Theorem C28_validate_rechunk :
+  forall old new,
+    (validate_rechunk old new = Proceed tt <->
+       Forall2 (fun od nd => if has_nan od || has_nan nd then od = nd else osum od = osum nd) old new) /\
+    (validate_rechunk old new = Refuse AssertionError <-> length old <> length new).
+Proof. exact validate_rechunk_full. Qed.
+
+(* an accepted rechunk keeps the advertised layout sound: axes with unknown sizes are
+   untouched (sound w.r.t. the SAME true sizes), fully known axes keep the true length *)
+Theorem C28_known_sound_preserved_validate_rechunk :
+  forall old new tr,
+    validate_rechunk old new = Proceed tt -> known_soundN old tr ->
+    Forall2 (fun nd t => known_sound nd t \/ exists n, nd = map Some n /\ zsum n = zsum t) new tr.
+Proof. exact validate_rechunk_sound. Qed.
+
+(* old_to_new: on an axis whose OLD chunks contain an unknown size the crosswalk is the
+   identity (new block j = old block j, whole: slice(0, size_j or None)); on the other
+   axes it is _intersect_1d of Rechunk.v *)
+Theorem C28_old_to_new_unknown_axis :
+  forall old new cw,
+    old_to_new_u old new = Some cw ->
+    length cw = length old /\
+    forall k od nd, nth_error old k = Some od -> nth_error new k = Some nd ->
+      (has_nan od = true ->
+         nth_error cw k = Some (unknown_axis_crosswalk od) /\
+         length (unknown_axis_crosswalk od) = length od /\
+         forall j size, nth_error od j = Some size ->
+           nth_error (unknown_axis_crosswalk od) j = Some [(Z.of_nat j, 0, size)]) /\
+      (has_nan od = false ->
+         exists o n, od = map Some o /\ nd = map Some n /\
+                     nth_error cw k = Some (map (map lift_piece) (intersect_1d o n))).
+Proof. exact old_to_new_u_full. Qed.
+
+(* what _validate_rechunk accepts is inside the modelled domain of old_to_new *)
+Theorem C28_validate_then_old_to_new_defined :
+  forall old new, validate_rechunk old new = Proceed tt -> exists cw, old_to_new_u old new = Some cw.
+Proof. exact validate_rechunk_old_to_new_defined. Qed.
+
+(* plan_rechunk: with an unknown size anywhere in old (or an empty new axis) the only step
+   is the requested layout — no intermediate layout is ever invented for unknown sizes;
+   planning proper only sees fully known old chunks *)
+Theorem C28_known_sound_preserved_plan_early_exit :
+  forall old new,
+    (plan_rechunk_early_exit old new = Some [new] <->
+       (exists d, In d new /\ d = []) \/ (exists d, In d old /\ has_nan d = true)) /\
+    (forall steps, plan_rechunk_early_exit old new = Some steps -> steps = [new]) /\
+    (plan_rechunk_early_exit old new = None ->
+       (exists o, old = map (map Some) o) /\ Forall (fun d => d <> []) new).
+Proof. exact plan_rechunk_early_exit_full. Qed.
+
+(* slicing: the guard proceeds iff every axis of unknown length is indexed by the literal
+   full slice — which selects every position whatever the true length is, so that axis is
+   untouched; anything else (ints, 0:, 1:3, ::1) on such an axis raises ValueError *)
+Theorem C28_known_sound_preserved_slice_guard :
+  forall chunks index,
+    (slice_guard chunks index = Proceed tt <->
+       forall k dim ind, nth_error chunks k = Some dim -> nth_error index k = Some ind ->
+         has_nan dim = true -> ind = LSlice colon) /\
+    (slice_guard chunks index = Refuse ValueError <->
+       exists k dim ind, nth_error chunks k = Some dim /\ nth_error index k = Some ind /\
+                         has_nan dim = true /\ ind <> LSlice colon) /\
+    (forall n, 0 <= n -> sel colon n = zrange 0 n 1).
+Proof. exact slice_guard_full. Qed.
+
+(* elementwise alignment (common_blockdim, 'refine' policy / coarse_blockdim, 'auto' and
+   'coarse'), for every iteration order of the set and every tie-break oracle.
+   HYPOTHESIS: all operand layouts advertise the SAME true layout (their blocks align).
+   Then a returned layout is one of the operands' and is sound for that true layout.
+   Without the hypothesis the clause is refuted: C28_misaligned_unknown_refuted (F32). *)
+Theorem C28_known_sound_preserved_common_blockdim :
+  forall ds tr r,
+    ds <> [] -> Forall (fun d => known_sound d tr) ds ->
+    common_blockdim_u ds = Proceed r -> In r ds /\ known_sound r tr.
+Proof. exact common_blockdim_u_sound. Qed.
+
+Theorem C28_known_sound_preserved_coarse_blockdim :
+  forall pick ds tr r,
+    ds <> [] -> Forall (fun d => known_sound d tr) ds ->
+    coarse_blockdim_u pick ds = Proceed r -> In r ds /\ known_sound r tr.
+Proof. exact coarse_blockdim_u_sound. Qed.
+
+(* with an unknown size in some operand the blockdim functions never invent a layout: they
+   return one of the operands' layouts unchanged (coarse: an unknown one, all operands having
+   the same number of blocks) or refuse *)
+Theorem C28_blockdim_unknown_returns_operand_or_refuses :
+  forall pick ds,
+    (exists d, In d ds /\ has_nan d = true) ->
+    (forall r, common_blockdim_u ds = Proceed r -> In r ds) /\
+    ((2 <= length (odedup (filter ontrivial ds)))%nat -> common_blockdim_u ds = Refuse ValueError) /\
+    (forall r, coarse_blockdim_u pick ds = Proceed r ->
+       In r ds /\ has_nan r = true /\ forall d, In d ds -> length d = length r) /\
+    (all_same_length ds = false -> coarse_blockdim_u pick ds = Refuse ValueError).
+Proof. exact blockdim_unknown_full. Qed.
+
+(* REFUTED without the alignment hypothesis (finding F32): two operands both advertising
+   (nan, nan), each sound for its own true layout, same axis length, different block sizes
+   ((2,1) vs (1,2)): as a set they are the single layout (nan, nan); both blockdim functions
+   return it, both rechunks to it validate (no-ops) — the blocks are then combined pairwise
+   and NumPy broadcasting inside the blocks yields a wrongly shaped result instead of an error:
+     xv=np.array([5,6,0,7,0,0]); yv=np.array([9,0,0,9,9,0])
+     x=da.from_array(xv,chunks=3); y=da.from_array(yv,chunks=3)
+     (x[x>4]+y[y>4]).compute() -> [14 15 16 16]     (NumPy: [14 15 16]) *)
+Theorem C28_misaligned_unknown_refuted :
+  exists d1 d2 tr1 tr2 r,
+    known_sound d1 tr1 /\ known_sound d2 tr2 /\ zsum tr1 = zsum tr2 /\ tr1 <> tr2 /\
+    common_blockdim_u (odedup [d1; d2]) = Proceed r /\
+    (forall pick, coarse_blockdim_u pick (odedup [d1; d2]) = Proceed r) /\
+    validate_rechunk [d1] [r] = Proceed tt /\ validate_rechunk [d2] [r] = Proceed tt.
+Proof. exact misaligned_unknown_refuted. Qed.
+
+(* compute_chunk_sizes: if the executed blocks form a grid (the block at index loc has shape
+   [tr_k[loc_k]]_k) and every axis has at least one block (forced by the proof: the Python
+   reads the other axes at block 0 and raises IndexError on a zero-block axis), the computed
+   chunks ARE the true sizes on every axis; ChunksOverride advertises exactly them, and its
+   layer maps every block index of the grid to the same block index of the wrapped array
+   (values untouched) and contains nothing else *)
+Theorem C28_compute_chunk_sizes_exact :
+  forall measure tr,
+    Forall (fun t => t <> []) tr ->
+    (forall loc, valid_loc tr loc -> measure loc = true_shape tr loc) ->
+    let new_chunks := map (map Some) (compute_chunk_sizes_model measure (map (@lenZ Z) tr)) in
+    compute_chunk_sizes_model measure (map (@lenZ Z) tr) = tr /\
+    chunks_override_chunks new_chunks = map (map Some) tr /\
+    known_soundN (chunks_override_chunks new_chunks) tr /\
+    (forall p, In p (chunks_override_layer new_chunks) -> fst p = snd p) /\
+    (forall idx, In (idx, idx) (chunks_override_layer new_chunks) <-> valid_loc tr idx).
+Proof. exact compute_chunk_sizes_resolves. Qed.
+
+(* ChunksOverride with still-unknown sizes: the layer is the identity on the block grid *)
+Theorem C28_chunks_override_layer_identity :
+  forall chunks,
+    (forall p, In p (chunks_override_layer chunks) -> fst p = snd p) /\
+    (forall idx, In (idx, idx) (chunks_override_layer chunks) <->
+                 Forall2 (fun i d => 0 <= i < lenZ d) idx chunks).
+Proof. exact chunks_override_layer_identity. Qed.
+
+(* _chunks_match is structural equality with nan = nan; np.isnan(sum(d)) is any(isnan) *)
+Theorem C28_chunks_match :
+  forall a b, chunks_match a b = true <-> a = b.
+Proof. exact chunks_match_eq. Qed.
+
+Theorem C28_sum_is_nan_iff_has_nan :
+  forall d, is_nan (osum d) = has_nan d.
+Proof. exact is_nan_osum. Qed.
+
+(* agreement: on fully known layouts the unknown-aware models coincide with the models of
+   Rechunk.v / Unify.v (which carry the C15 / C17 theorems).  NoDup: real callers pass sets. *)
+Theorem C28_agrees_old_to_new :
+  forall old new, length old = length new ->
+    old_to_new_u (map (map Some) old) (map (map Some) new) =
+    Some (map (map (map lift_piece)) (old_to_new old new)).
+Proof. exact old_to_new_u_known. Qed.
+
+Theorem C28_agrees_common_blockdim :
+  forall ds, NoDup ds -> Forall (fun d => d <> []) ds ->
+    common_blockdim_u (map (map Some) ds) = of_ures (common_blockdim ds).
+Proof. exact common_blockdim_u_known. Qed.
+
+Theorem C28_agrees_coarse_blockdim :
+  forall pick ds, NoDup ds -> Forall (fun d => d <> []) ds ->
+    coarse_blockdim_u pick (map (map Some) ds) = of_ures (coarse_blockdim pick ds).
+Proof. exact coarse_blockdim_u_known. Qed.
+
+(* ---------------------------------------------------------------------------------- *)
+(* non-vacuity *)
+Example C28_ex_validate_accepts :
+  validate_rechunk [[None; Some 3]; [Some 2; Some 2]] [[None; Some 3]; [Some 1; Some 3]] = Proceed tt.
+Proof. vm_compute. reflexivity. Qed.
+Example C28_ex_validate_refuses_moved_nan :
+  validate_rechunk [[None; Some 3]] [[Some 3; None]] = Refuse ValueError.
+Proof. vm_compute. reflexivity. Qed.
+Example C28_ex_validate_refuses_resolving :
+  validate_rechunk [[None; None]] [[Some 4]] = Refuse ValueError.
+Proof. vm_compute. reflexivity. Qed.
+Example C28_ex_validate_rank : validate_rechunk [[Some 1]] [[Some 1]; [Some 1]] = Refuse AssertionError.
+Proof. vm_compute. reflexivity. Qed.
+Example C28_ex_old_to_new :
+  old_to_new_u [[None; Some 3]; [Some 2; Some 2]] [[None; Some 3]; [Some 1; Some 3]] =
+  Some [[[(0, 0, None)]; [(1, 0, Some 3)]];
+        [[(0, 0, Some 1)]; [(0, 1, Some 2); (1, 0, Some 2)]]].
+Proof. vm_compute. reflexivity. Qed.
+Example C28_ex_plan_early_exit :
+  plan_rechunk_early_exit [[None; Some 3]; [Some 2; Some 2]] [[None; Some 3]; [Some 4]] =
+  Some [[[None; Some 3]; [Some 4]]].
+Proof. vm_compute. reflexivity. Qed.
+Example C28_ex_plan_goes_on : plan_rechunk_early_exit [[Some 2; Some 2]] [[Some 4]] = None.
+Proof. vm_compute. reflexivity. Qed.
+Example C28_ex_slice_guard_full : slice_guard [[None; None]; [Some 2]] [LSlice colon; LInt 1] = Proceed tt.
+Proof. vm_compute. reflexivity. Qed.
+Example C28_ex_slice_guard_equivalent_full_slice_refused :
+  slice_guard [[None; None]] [LSlice (mkslice (Some 0) None None)] = Refuse ValueError.
+Proof. vm_compute. reflexivity. Qed.
+Example C28_ex_slice_guard_int : slice_guard [[Some 2]; [None]] [LSlice colon; LInt 0] = Refuse ValueError.
+Proof. vm_compute. reflexivity. Qed.
+Example C28_ex_common_single_nontrivial :
+  common_blockdim_u [[None; None]; [Some 2]] = Proceed [None; None].
+Proof. vm_compute. reflexivity. Qed.
+Example C28_ex_common_refuses :
+  common_blockdim_u [[None; None]; [Some 1; Some 1]] = Refuse ValueError.
+Proof. vm_compute. reflexivity. Qed.
+Example C28_ex_common_nan_head_keeps_first :
+  common_blockdim_u [[Some 3]; [None]] = Proceed [Some 3] /\ common_blockdim_u [[None]; [Some 3]] = Proceed [None].
+Proof. vm_compute. split; reflexivity. Qed.
+Example C28_ex_coarse_first_unknown :
+  coarse_blockdim_u 0 [[Some 1; Some 1]; [None; Some 1]; [None; None]] = Proceed [None; Some 1].
+Proof. vm_compute. reflexivity. Qed.
+Example C28_ex_coarse_refuses_lengths : coarse_blockdim_u 0 [[None; None]; [Some 2]] = Refuse ValueError.
+Proof. vm_compute. reflexivity. Qed.
+Example C28_ex_blockdim_empty_layout_stopiteration :
+  common_blockdim_u [[]; [Some 3]] = Refuse StopIteration /\ coarse_blockdim_u 0 [[]; [Some 3]] = Refuse StopIteration.
+Proof. vm_compute. split; reflexivity. Qed.
+Example C28_ex_coarse_known_delegates :
+  coarse_blockdim_u 0 [[Some 12; Some 12]; [Some 6; Some 6; Some 6; Some 6]; [Some 24]] = Proceed [Some 12; Some 12].
+Proof. vm_compute. reflexivity. Qed.
+Example C28_ex_common_known_delegates :
+  common_blockdim_u [[Some 5; Some 2]; [Some 4; Some 3]; [Some 7]] = Proceed [Some 4; Some 1; Some 2].
+Proof. vm_compute. reflexivity. Qed.
+(* the soundness hypothesis is satisfiable with several, partly unknown, operands *)
+Example C28_ex_sound_hypothesis :
+  Forall (fun d => known_sound d [2; 0; 3]) [[None; Some 0; None]; [Some 2; None; None]; [Some 2; Some 0; Some 3]] /\
+  coarse_blockdim_u 0 [[None; Some 0; None]; [Some 2; None; None]; [Some 2; Some 0; Some 3]] = Proceed [None; Some 0; None].
+Proof.
+  split; [|vm_compute; reflexivity].
+  repeat constructor; apply known_sound_b_spec; vm_compute; reflexivity.
+Qed.
+(* compute_chunk_sizes on a 2 x 3 grid of blocks with true sizes (2,0) x (1,4,2) *)
+Example C28_ex_compute_chunk_sizes :
+  let tr := [[2; 0]; [1; 4; 2]] in
+  compute_chunk_sizes_model (true_shape tr) [2; 3] = tr /\
+  chunks_override_layer [[None; None]; [Some 1; Some 4; Some 2]] =
+    [([0;0],[0;0]); ([0;1],[0;1]); ([0;2],[0;2]); ([1;0],[1;0]); ([1;1],[1;1]); ([1;2],[1;2])].
+Proof. vm_compute. split; reflexivity. Qed.
+(* ... and the hypothesis "every axis has a block" cannot be dropped: with a zero-block axis no
+   block index is valid, any measure satisfies the grid hypothesis, yet the model reads block
+   (j, 0) (the Python raises IndexError there) *)
+Example C28_ex_compute_chunk_sizes_needs_blocks :
+  (forall loc, valid_loc [[2; 5]; []] loc -> (fun _ => [9; 9]) loc = true_shape [[2; 5]; []] loc) /\
+  compute_chunk_sizes_model (fun _ => [9; 9]) [2; 0] <> [[2; 5]; []].
+Proof.
+  split.
+  - intros loc H. exfalso. inversion H as [|? ? ? ? _ H2]; subst.
+    inversion H2 as [|? ? ? ? H3 _]; subst. unfold lenZ in H3. cbn in H3. lia.
+  - vm_compute. intros H. discriminate H.
+Qed.
+
+Print Assumptions C28_validate_rechunk.
+Print Assumptions C28_known_sound_preserved_validate_rechunk.
+Print Assumptions C28_old_to_new_unknown_axis.
+Print Assumptions C28_validate_then_old_to_new_defined.
+Print Assumptions C28_known_sound_preserved_plan_early_exit.
+Print Assumptions C28_known_sound_preserved_slice_guard.
+Print Assumptions C28_known_sound_preserved_common_blockdim.
+Print Assumptions C28_known_sound_preserved_coarse_blockdim.
+Print Assumptions C28_blockdim_unknown_returns_operand_or_refuses.
+Print Assumptions C28_misaligned_unknown_refuted.
+Print Assumptions C28_compute_chunk_sizes_exact.
+Print Assumptions C28_chunks_override_layer_identity.
+Print Assumptions C28_chunks_match.
+Print Assumptions C28_sum_is_nan_iff_has_nan.
+Print Assumptions C28_agrees_old_to_new.
+Print Assumptions C28_agrees_common_blockdim.
+Print Assumptions C28_agrees_coarse_blockdim.
